@@ -6,6 +6,7 @@
 import DDProofs.DumpProofs
 import DDProofs.Reach
 import DDProofs.ApplyProofs
+import DDProofs.PredNodesOrder
 open Std
 namespace DD
 
@@ -119,11 +120,12 @@ theorem nodeFromInt_spec {succ : List PEntry} {lm : List (Nat × Nat)} {n : Nat}
     ∃ r r', nodeFromInt cache uid m = (.ok r, { m with ref := r' }) ∧
       GoodState { m with ref := r' } (extInc e r.natAbs) ∧ m.tbl.Mem r ∧ (0 < r ↔ 0 < uid) ∧
       (∀ a, den m.tbl r a = evalL succ lm (n + 1) uid a) ∧
-      (uid.natAbs ≠ 1 → cache.lookup uid.natAbs = some (if uid < 0 then -r else r)) := by
+      (uid.natAbs ≠ 1 → cache.lookup uid.natAbs = some (if uid < 0 then -r else r)) ∧
+      (uid.natAbs = 1 → r = uid) := by
   by_cases hm1 : uid = -1
   · subst hm1
     obtain ⟨r', hw, hg⟩ := dmp_wrap_spec m e h (-1) (Or.inl rfl)
-    refine ⟨-1, r', ?_, hg, Or.inl rfl, by simp, ?_, fun h => absurd rfl h⟩
+    refine ⟨-1, r', ?_, hg, Or.inl rfl, by simp, ?_, fun h => absurd rfl h, fun _ => rfl⟩
     · unfold nodeFromInt
       simp only [if_true]
       rw [M.bind_eq_ok hw]; rfl
@@ -131,7 +133,7 @@ theorem nodeFromInt_spec {succ : List PEntry} {lm : List (Nat × Nat)} {n : Nat}
   by_cases h1 : uid = 1
   · subst h1
     obtain ⟨r', hw, hg⟩ := dmp_wrap_spec m e h 1 (Or.inl rfl)
-    refine ⟨1, r', ?_, hg, Or.inl rfl, by simp, ?_, fun h => absurd rfl h⟩
+    refine ⟨1, r', ?_, hg, Or.inl rfl, by simp, ?_, fun h => absurd rfl h, fun _ => rfl⟩
     · unfold nodeFromInt
       simp only [show ¬ ((1 : Int) = -1) by decide, if_false, if_true]
       rw [M.bind_eq_ok hw]; rfl
@@ -158,7 +160,7 @@ theorem nodeFromInt_spec {succ : List PEntry} {lm : List (Nat × Nat)} {n : Nat}
       simp [extInc]
     obtain ⟨r3, hd3, hg3⟩ := dmp_drop_spec { m with ref := r2 } _ hg2 k hp
     have hsign : (0 < -k ↔ 0 < uid) := ⟨fun h' => by omega, fun h' => by omega⟩
-    refine ⟨-k, r3, ?_, ?_, mem_neg kmem, hsign, ?_, fun _ => by simp [hneg, hk]⟩
+    refine ⟨-k, r3, ?_, ?_, mem_neg kmem, hsign, ?_, fun _ => by simp [hneg, hk], fun h => absurd h hn1⟩
     · unfold nodeFromInt
       simp only [hm1, h1, if_false]
       rw [M.bind_eq_ok hlook, M.bind_eq_ok hw1]
@@ -183,7 +185,7 @@ theorem nodeFromInt_spec {succ : List PEntry} {lm : List (Nat × Nat)} {n : Nat}
       obtain ⟨j, hj⟩ := Option.isSome_iff_exists.mp (hdom _ e' he' (by simpa using hn1))
       exact ⟨v', w', j, hv2, hw2', hj⟩
   · have hsign : (0 < k ↔ 0 < uid) := ⟨fun _ => by omega, fun _ => kpos⟩
-    refine ⟨k, r1, ?_, hg1, kmem, hsign, ?_, fun _ => by simp [hneg, hk]⟩
+    refine ⟨k, r1, ?_, hg1, kmem, hsign, ?_, fun _ => by simp [hneg, hk], fun h => absurd h hn1⟩
     · unfold nodeFromInt
       simp only [hm1, h1, if_false]
       rw [M.bind_eq_ok hlook, M.bind_eq_ok hw1]
@@ -221,10 +223,6 @@ theorem lookup_append_single (cache : List (Nat × Int)) (k k' : Nat) (u : Int) 
 
 
 /-! ### the unique table has no entries other than those of the nodes -/
-
-/-- every entry `(level, low, high) ↦ u` of `_pred` is the triple of the stored node `u` -/
-def PredNodes (m : Mgr) : Prop :=
-  ∀ (k : List Int) (u : Nat), m.pred[k]? = some u → ∃ n, m.tbl.succ[u]? = some n ∧ n.key = k
 
 theorem PredNodes.congr {m m' : Mgr} (h : PredNodes m) (h1 : m'.pred = m.pred)
     (h2 : m'.tbl.succ = m.tbl.succ) : PredNodes m' := by
@@ -416,8 +414,8 @@ theorem makeNode_spec {succ : List PEntry} {lm : List (Nat × Nat)} {n : Nat}
   subst hv' hw'
   have hjlt : j < m.nvars := h.order.lt name j hvar
   -- low, high
-  obtain ⟨lo, r1, elo, g1, mlo, slo, dlo, _⟩ := nodeFromInt_spec hs hdom m e h cache hc ln.lo hlo
-  obtain ⟨hi, r2, ehi, g2, mhi, shi, dhi, _⟩ :=
+  obtain ⟨lo, r1, elo, g1, mlo, slo, dlo, _, _⟩ := nodeFromInt_spec hs hdom m e h cache hc ln.lo hlo
+  obtain ⟨hi, r2, ehi, g2, mhi, shi, dhi, _, _⟩ :=
     nodeFromInt_spec hs hdom { m with ref := r1 } _ g1 cache hc ln.hi hhi
   -- var
   let m2 : Mgr := { m with ref := r2 }
@@ -717,7 +715,8 @@ theorem rootsFromInts_spec {succ : List PEntry} {lm : List (Nat × Nat)} {n : Na
       (∀ k ∈ ks, k.natAbs = 1 ∨ (cache.lookup k.natAbs).isSome) →
       ∃ us r, rootsFromInts cache ks m = (.ok us, { m with ref := r }) ∧
         GoodState { m with ref := r } (extAdd e (us.map Int.natAbs)) ∧
-        Forall2 (fun k u => m.tbl.Mem u ∧ ∀ a, den m.tbl u a = evalL succ lm (n + 1) k a) ks us := by
+        Forall2 (fun k u => (m.tbl.Mem u ∧ ∀ a, den m.tbl u a = evalL succ lm (n + 1) k a) ∧
+          (k.natAbs ≠ 1 → cache.lookup k.natAbs = some (if k < 0 then -u else u))) ks us := by
   intro ks
   induction ks with
   | nil =>
@@ -725,11 +724,11 @@ theorem rootsFromInts_spec {succ : List PEntry} {lm : List (Nat × Nat)} {n : Na
     exact ⟨[], m.ref, rfl, by simpa [extAdd_nil] using h, .nil⟩
   | cons k rest ih =>
     intro m e h hc hres
-    obtain ⟨u, r1, e1, g1, mu, _, du, _⟩ :=
+    obtain ⟨u, r1, e1, g1, mu, _, du, lu, _⟩ :=
       nodeFromInt_spec hs hdom m e h cache hc k (hres k List.mem_cons_self)
     obtain ⟨us, r2, e2, g2, f2⟩ := ih { m with ref := r1 } _ g1 hc
       (fun k' hk' => hres k' (List.mem_cons_of_mem _ hk'))
-    refine ⟨u :: us, r2, ?_, ?_, .cons ⟨mu, du⟩ f2⟩
+    refine ⟨u :: us, r2, ?_, ?_, .cons ⟨⟨mu, du⟩, lu⟩ f2⟩
     · rw [rootsFromInts]
       refine (M.bind_eq_ok e1).trans ?_
       simp only [e2]
@@ -762,7 +761,7 @@ theorem releaseLoop_spec {succ : List PEntry} {lm : List (Nat × Nat)} {n : Nat}
     have hlk : cache.lookup k = some u0 := dmp_lookup_of_mem_nodup cache hn k u0 (hsub _ List.mem_cons_self)
     obtain ⟨u0pos, u0mem, hk1, _, _⟩ := hc k u0 hlk
     have hnat : ((k : Int)).natAbs = k := by simp
-    obtain ⟨u, r1, e1, g1, mu, su, _, hlu⟩ := nodeFromInt_spec hs hdom m _ h cache hc (k : Int)
+    obtain ⟨u, r1, e1, g1, mu, su, _, hlu, _⟩ := nodeFromInt_spec hs hdom m _ h cache hc (k : Int)
       (Or.inr (by rw [hnat, hlk]; rfl))
     have hu : u = u0 := by
       have := hlu (by rw [hnat]; exact hk1)
@@ -1065,7 +1064,7 @@ theorem loadJson_false_spec (f : JsonFile) (hf : JsonWF f) (tgt : Mgr) (e : Nat 
   have hac := assertConsistent_ok { m2 with ref := r4 } g4.inv (pn2.congr rfl rfl) hroots2
   -- the result
   obtain ⟨hrel, hvals⟩ := Roots.rebuild_rel (P := fun k u => m2.tbl.Mem u ∧
-      ∀ a, den m2.tbl u a = evalL succ lm (n + 1) k a) f.roots hsome us f3
+      ∀ a, den m2.tbl u a = evalL succ lm (n + 1) k a) f.roots hsome us (f3.imp fun _ _ h => h.1)
   have hl : LMOK succ lm m2.tbl.nvars := by
     constructor
     intro k en he h1
